@@ -738,6 +738,8 @@ def flow_marks(text):
       'emptykey{' / 'emptykey?'  an entry of a flow SEQUENCE starts with ':' while flow_mapping_started is set (last set
                                  by a '{' / by a '?' in flow context)
       'qempty'                   an entry of a flow SEQUENCE is '?' followed by ':' ',' or ']'
+      'dash'                     inside a flow collection, a '-' after a blank (not at the start of an entry) directly followed
+                                 by ',' ']' or '}'
       'bracecomma'               a ',' inside '{...}' while the innermost enclosing flow sequence is inside an implicit
                                  single pair (the value of `[ k: {a: b, c: d} ]`)"""
     marks = []
@@ -832,6 +834,8 @@ def flow_marks(text):
             if c in " \t\r\n":
                 i += 1
                 continue
+            if c == "-" and prev in " \t" and not entry_start and i + 1 < n and text[i + 1] in ",]}":
+                marks.append("dash")
             is_value = c == ":" and (i + 1 >= n or text[i + 1] in " \t\r\n,]}" or prev in "'\"]}")
             if is_value and stack[-1][0] == "[":
                 if entry_start and fms:
@@ -859,7 +863,7 @@ def known_classes(text):
     out = []
     if "qempty" in m:
         out.append("explicit-key-indicator-without-key-in-flow-sequence")
-    if "emptykey{" in m and KNOWN_EMPTYKEY_RE.search(text):
+    if "emptykey{" in m:      # (KNOWN_EMPTYKEY_RE is the same predicate without comments between '[' / ',' and ':')
         out.append("empty-key-flow-pair-after-flow-mapping")
     if "emptykey?" in m:
         out.append("empty-key-flow-pair-after-flow-explicit-key")
@@ -867,7 +871,7 @@ def known_classes(text):
         out.append("comma-of-nested-flow-mapping-ends-implicit-pair")
     if zero_indent_root_scalar_before_doc_start(text):
         out.append("document-start-marker-in-zero-indented-root-block-scalar")
-    if re.search(r"[\[{,][^\n'\"#]*[^\s'\"#]\s+-[,\]}]", text):
+    if "dash" in m:
         out.append("dash-before-flow-indicator-in-plain-scalar")
     return out
 
@@ -876,7 +880,7 @@ def zero_indent_root_scalar_before_doc_start(text):
     """a block scalar that is the root node of a document, with content at indentation 0, followed by a '---' line
     (before any '...' line)"""
     lines = text.split("\n")
-    hdr = re.compile(r"^(--- +)?([!&][^ ]* +)*[|>][-+1-9]*[ ]*(#.*)?$")
+    hdr = re.compile(r"^ *(--- +)?([!&][^ ]* +)*[|>][-+1-9]*[ ]*(#.*)?$")
     i = 0
     while i < len(lines):
         if hdr.match(lines[i]):
@@ -1229,7 +1233,7 @@ def shrink_candidates(docs):
     for di, d in enumerate(docs):
         for p in paths(d, []):
             tgt = get(d, p)
-            if tgt.kind in "QM" and tgt.items:
+            if tgt.kind in "QM" and tgt.items and (tgt.flow or len(tgt.items) > 1):
                 for i in range(len(tgt.items)):
                     if has_alias_or_anchor(tgt):
                         break
@@ -1289,8 +1293,8 @@ def check_C03(tier, seed):
     cov_tree, cov_layout = {}, {}
     if res.harness_ok and res.model_ok:
         # ---------------- (a) generated streams ----------------
-        n_main = 6000 if quick else 150000
-        n_known = 150 if quick else 2000
+        n_main = 24000 if quick else 300000
+        n_known = 400 if quick else 4000
         cases = []           # (docs, opts, layout seed, text, explicit, expected, stream label)
         tg = TreeGen(rng, cov=cov_tree)
         seen = set()
@@ -1436,7 +1440,7 @@ def check_C03(tier, seed):
                                      error=sum(1 for t in suite if t.get("fail")), runs=kinds)
 
         # ---------------- (c) the token grammar of coq/Spec/TokenGrammar.v, executed ----------------
-        n_lt = 4000 if quick else 100000
+        n_lt = 12000 if quick else 200000
         lrng = gen.rng_for(seed, PID + "-lt")
         ltg = TreeGen(lrng, cov={})
         lt_lines, lt_exp = [], []
